@@ -47,9 +47,9 @@ type caseData struct {
 	Enum       bool   `json:"enum,omitempty"`    // not an input: enumerate builtins and methods
 	Key        string `json:"key,omitempty"`     // the case id (written to the stage log)
 
-	Script    *scriptSpec  `json:"script,omitempty"`  // how a script was put together (for control variants)
-	Runaway   *runawaySpec `json:"runaway,omitempty"` // the runaway-recursion shape
-	StackMB   int          `json:"stack_mb,omitempty"` // screening stack limit for this case (default 16 MB)
+	Script    *scriptSpec  `json:"script,omitempty"`     // how a script was put together (for control variants)
+	Runaway   *runawaySpec `json:"runaway,omitempty"`    // the runaway-recursion shape
+	StackMB   int          `json:"stack_mb,omitempty"`   // screening stack limit for this case (default 16 MB)
 	CallNames []string     `json:"call_names,omitempty"` // functions risor.Call invokes (default: the first ones declared)
 	VMReuse   []string     `json:"vm_reuse,omitempty"`   // run the definitions on one VM, then vm.Call these in turn on it
 }
